@@ -1,5 +1,6 @@
 import Driver.Util
 import InfluxVerif.Model.MetaCodec
+import InfluxVerif.Model.Routing
 import InfluxVerif.Gen.C06
 namespace Driver.MetaD
 open InfluxVerif.Meta
@@ -131,6 +132,23 @@ def step (s : St) (line : String) : St × String :=
     match s.held with
     | none => (s, "bad-op")
     | some h => ({ s with held := none }, if (snapshotRoundtrip h).payload = (snapshotRoundtrip h).payload then "release same" else "release CHANGED")
+  | ["map", now, db, rp, pts] =>
+    let parsePt (x : String) : Option InfluxVerif.Routing.Pt :=
+      match x.splitOn ":" with
+      | [t, h] => match t.toInt?, h.toNat? with
+        | some t, some h => some ⟨t, h⟩
+        | _, _ => none
+      | _ => none
+    match now.toInt?, allSome ((splitCsv pts).map parsePt) with
+    | some now, some pts =>
+      match InfluxVerif.Routing.mapShards s.auto now s.data (nm db) (nm rp) pts with
+      | (d', .error _) => ({ s with data := d', k := d'.index }, "err")
+      | (d', .ok m) =>
+        let show1 : Option (Nat × Nat) → String
+          | none => "D"
+          | some (g, sh) => s!"{g}.{sh}"
+        ({ s with data := d', k := d'.index }, "ok " ++ joinCsv (m.map show1))
+    | _, _ => (s, "bad-op")
   | ["raw", t, e] =>
     match t.toNat?, e.toNat? with
     | some t, some e =>
